@@ -585,6 +585,11 @@ pub fn check_c08(server: &Server, lane: &Lane, t: &TransferSpec, v: &TransferVie
             stats.hit("c08.out-of-premise.budget");
             return false;
         }
+        // client size preference in {none, szx 0..6}: 7 is reserved
+        if a.block2.map_or(false, |b| b.2 == 7) {
+            stats.hit("c08.out-of-premise.reserved-szx");
+            return false;
+        }
     }
     let Some(call) = &a0.app else {
         // in premise the first request always reaches the application
@@ -745,6 +750,12 @@ pub fn check_c08(server: &Server, lane: &Lane, t: &TransferSpec, v: &TransferVie
     if v.probe_adjacent && !v.open_before && n_dl >= 1 {
         if let Some(&ps) = v.probes.first() {
             let pa = &log[ps];
+            // "the next request": one of the kind the property speaks about
+            // (a Block2 option with the reserved size exponent is not)
+            if pa.block2.map_or(false, |b| b.2 == 7) {
+                stats.hit("c08.released.out-of-premise.reserved-szx");
+                return true;
+            }
             stats.hit("c08.released.checked");
             if n_dl > 1 {
                 stats.hit("c08.released.after-fragmented");
